@@ -184,7 +184,7 @@ def main():
                'bot-top constants compared for panels sharing one domain (face-to-face), concrete a<b and a>b')
     run.outside = ['orders above the bound', 'kCLTxycte (not importable: commented out in connections/__init__.py)']
     res = pmap(kprop.job, [(__name__, c) for c in cf])
-    res = kprop.explore_loci(__name__, res, run)      # second pass: the equality loci the executed code branched on
+    res = kprop.explore_loci(__name__, res, run, max_new=96, per_config=True)   # every size of a group on every locus: a branch may need a fifth term on one particular side      # second pass: the equality loci the executed code branched on
     kprop.handle(run, res, build, 'connection matrix entries differ from the mismatch-energy Hessian')
     return run.finish()
 
